@@ -194,6 +194,8 @@ def gen_one(rng, i, tier):
         smp = {"type": "shift"}
     elif r < 0.55:
         smp = {"type": "identity"}
+    elif r < 0.62 and kind == "scores":
+        smp = {"type": "mutating"}
     else:
         if kind == "scores":
             sm = rng.choice(["replacement", "single_pass", "dynamic", "proportion"])
@@ -404,14 +406,30 @@ def _derive(obj, kind, k):
 
 
 class _Counting:
-    def __init__(self, obj, kind):
+    def __init__(self, obj, kind, at_call=None):
         self.obj, self.kind, self.samples, self.sources, self.extra = obj, kind, [], [], []
+        self.at_call, self.rows, self.work = at_call, [], None
 
     def __call__(self, *a, **k):
         self.sources.append(a[0] if a else None)
         if len(a) != 1 or k:
             self.extra.append((len(a), sorted(k)))
-        s = self.obj if self.kind == "identity" else _derive(self.obj, self.kind, len(self.samples))
+        if self.kind == "mutating":
+            # ONE work object whose buffers are overwritten and which is returned again and again (a sampler that avoids
+            # allocations): row j is the metric of the sample AS RETURNED BY CALL j, so the metric has to be taken before
+            # the next draw; the harness records it at call time
+            from score_analysis import Scores
+            if self.work is None:
+                self.work = Scores(np.array(self.obj.pos, dtype=float), np.array(self.obj.neg, dtype=float),
+                                   nb_easy_pos=self.obj.nb_easy_pos, nb_easy_neg=self.obj.nb_easy_neg,
+                                   score_class=self.obj.score_class, equal_class=self.obj.equal_class, is_sorted=True)
+            self.work.pos += 0.125 * (1 + len(self.samples) % 3)
+            self.work.neg -= 0.0625
+            s = self.work
+            if self.at_call is not None:
+                self.rows.append(np.array(self.at_call(s), copy=True))
+        else:
+            s = self.obj if self.kind == "identity" else _derive(self.obj, self.kind, len(self.samples))
         self.samples.append(s)
         return s
 
@@ -620,11 +638,12 @@ def build(inp) -> Case:
     identity = False
 
     # ------------------------------------------------------------------ counting / identity
-    if stype in ("drop", "shift", "identity", "foreign"):
+    if stype in ("drop", "shift", "identity", "foreign", "mutating"):
         identity = stype == "identity"
-        smp = _Counting(obj, stype)
+        smp = _Counting(obj, stype, apply_metric)
         r = common.call(obj.bootstrap_metric, metric_arg, config(smp), **kwargs)
-        ref_samples = lambda: [_derive(obj, stype, k) if not identity else obj for k in range(nb)]  # noqa: E731
+        ref_samples = lambda: ([] if stype == "mutating" else
+                               [_derive(obj, stype, k) if not identity else obj for k in range(nb)])  # noqa: E731
         if r[0] == "exc":
             raised_legit(r, ref_samples, "bootstrap_metric", "boot/metric/raises")
             return done()
@@ -638,7 +657,11 @@ def build(inp) -> Case:
         if mat is None:
             return done()
         samples = smp.samples[:nb] + ref_samples()[len(smp.samples):]
-        exp = expected_rows(samples)
+        if stype == "mutating":
+            exp = (np.stack(smp.rows[:nb], axis=0).astype(est.dtype) if len(smp.rows) >= nb
+                   else np.full((nb,) + mshape, np.nan))
+        else:
+            exp = expected_rows(samples)
         rows_ok = check_rows(mat, exp, "bootstrap_metric with a counting sampler", "boot/metric/rows")
         check_rec_calls(smp.samples[:nb] if len(smp.samples) >= nb else None, "bootstrap_metric")
         obs = mat
@@ -647,7 +670,7 @@ def build(inp) -> Case:
         for meth in methods:
             if rec is not None:
                 rec.calls.clear()
-            smp2 = _Counting(obj, stype)
+            smp2 = _Counting(obj, stype, apply_metric)
             cfg2 = config(smp2, meth)
             c = run_ci_recorded(cfg2) if meth == method else common.call(obj.bootstrap_ci, metric_arg, alpha, cfg2, **kwargs)
             if len(smp2.samples) != nb and not (c[0] == "exc"):
@@ -655,7 +678,11 @@ def build(inp) -> Case:
                      "boot/ci/sampler-calls")
             if any(s is not obj for s in smp2.sources):
                 fail("sampler-source", "bootstrap_ci: the custom sampler was not called as sampler(self)", "boot/sampler-source")
-            theta = expected_rows(smp2.samples[:nb] + ref_samples()[len(smp2.samples):])
+            if stype == "mutating":
+                theta = (np.stack(smp2.rows[:nb], axis=0).astype(est.dtype) if len(smp2.rows) >= nb
+                         else np.full((nb,) + mshape, np.nan))
+            else:
+                theta = expected_rows(smp2.samples[:nb] + ref_samples()[len(smp2.samples):])
             cc = check_ci(c, theta, f"bootstrap_ci[{meth}]", meth)
             check_rec_calls(smp2.samples[:nb] if len(smp2.samples) >= nb else None, "bootstrap_ci")
             if meth == method:
